@@ -124,7 +124,7 @@ def big_spec(rng):
 
 
 def run(ctx, rep, model=True):
-    n = 3 if ctx.quick else 20
+    n = 6 if ctx.quick else 24
     for i in range(n):
         spec = plotgen.random_spec(ctx.rng, ndims=3, nlev=[2, 3, 1, 2][i % 4], nf=2, data=["smallint", "affine"][i % 2], B=2,
                                    nblk=[[2, 1, 2], [1, 2, 1], [2, 2, 1]][i % 3], origin=True, aniso=True, refine_p=0.4, layout="scatter")
